@@ -19,7 +19,7 @@ prop("C11", "exploration",
      "the local side creates from. In these cases and in a quarter of the others the LOCAL APPLICATION then CREATES 1-3 tubes of each class: every "
      "Create returns within 10 virtual seconds a tube of the local parity or an error (ErrOutOfTubes). A bubble that freezes in a case with local "
      "creates (a Create spinning under the muxer lock blocks nothing durably, so no virtual bound can elapse) is decided by repeating fixture, "
-     "junk, local creates (20 s each) and Stop (30 s) with real timers outside the bubble: signature ...:confirmed-in-real-time. "
+     "junk, local creates (45 s each) and Stop (60 s) with real timers outside the bubble: signature ...:confirmed-in-real-time. "
      "Oracle: no panic, also not in a timer/sender goroutine during the 3 virtual minutes the case keeps running after Stop; the "
      "control tube moves fresh data both ways during and after the junk; Muxer.Stop returns within 10 virtual seconds; when Stop has "
      "returned no tube that is still registered or was ever handed out by Accept is open (white box: closed channel), and Accept has "
